@@ -42,7 +42,8 @@ CONSTANTS
   Msgs,        \* [Side -> Seq([ch |-> Nat, n |-> Nat])] messages each side's application submits
   InitTsnA, InitTsnB,   \* sets of initial TSNs
   MaxRtx, MaxT1, Win,
-  \* Deviations (declared in SctpOps): subset of {"SetupOverwrite", "DataBeforeEstablished", "FwdPlainCompare"}
+  \* Deviations (declared in SctpOps): subset of {"SetupOverwrite", "DataBeforeEstablished",
+  \*   "FwdPlainCompare", "AdvPointWrongSpace", "FwdNotRetransmitted"}
   NetMode, Budget,
   Props        \* properties whose rules are switched on
 
@@ -66,19 +67,26 @@ VARIABLES
   ssnOut,    \* [Side -> [ch -> next SSN]]
   deliv,     \* [Side -> [ch -> Seq(msg)]]   what the application received
   opens,     \* [Side -> Nat]  Open events per (negotiated) channel set
+  ackPt,     \* [Side -> highest cumulative TSN ack received from the peer] (RFC 3758: updated by SACKs)
+  advPt,     \* [Side -> Advanced.Peer.Ack.Point]
+  fwd,       \* [Side -> last FORWARD-TSN sent: [on, fr (stream / ssn of the skipped message), n]]
   net, wire, held, lastDel, cnt, faults, budget
 
-vars == <<st, t1, t1cnt, itsn, answered, next, rx, sentQ, outQ, sub, ssnOut, deliv, opens,
+vars == <<st, t1, t1cnt, itsn, answered, next, rx, sentQ, outQ, sub, ssnOut, deliv, opens, ackPt, advPt, fwd,
           net, wire, held, lastDel, cnt, faults, budget>>
 
 Ordered == [c \in ChanIds |-> Chans[c].ord]
 
 Kinds == {"INIT", "IACK", "CECHO", "CACK", "DATA", "SACK", "FWD"}
 Pkt(k, src, tsn, fr, gaps) == [k |-> k, src |-> src, tsn |-> tsn, fr |-> fr, gaps |-> gaps, o |-> 0]
+\* a DATA packet is addressed by its TSN relative to the sender's initial TSN and its transmission number
+DataPkt(src, tsn, fr, n) == [Pkt("DATA", src, tsn, fr, {}) EXCEPT !.o = n]
+RelTsn(p) == IF p.k = "DATA" THEN (p.tsn + M - itsn[p.src]) % M ELSE 0
 
 ---------------------------------------------------------------------------
 (* Network                                                                 *)
-Stamp(p) == IF NetMode = "fifo" THEN [p EXCEPT !.o = cnt[p.src][p.k] + 1] ELSE p
+Stamp(p) == IF NetMode = "fifo" /\ p.k # "DATA" THEN [p EXCEPT !.o = cnt[p.src][p.k] + 1]
+            ELSE IF NetMode = "set" THEN [p EXCEPT !.o = 0] ELSE p
 \* packets that may be handed to side `to` now
 Avail(to) ==
   IF NetMode = "set" THEN {p \in net : p.src = Peer(to)}
@@ -90,7 +98,7 @@ NetRecv(to, p, out) ==
        /\ UNCHANGED <<wire, held, lastDel, cnt>>
   ELSE /\ wire' = [wire EXCEPT ![Peer(to)] = Tail(@),
                                ![to] = @ \o [i \in 1..Len(out) |-> Stamp(out[i])]]
-       /\ lastDel' = [lastDel EXCEPT ![Peer(to)] = [k |-> p.k, o |-> p.o]]
+       /\ lastDel' = [lastDel EXCEPT ![Peer(to)] = [k |-> p.k, o |-> p.o, t |-> RelTsn(p)]]
        /\ cnt' = IF out = <<>> THEN cnt ELSE [cnt EXCEPT ![to][out[1].k] = @ + 1]
        /\ UNCHANGED <<net, held>>
 NetSend(from, p) ==
@@ -105,6 +113,7 @@ NetSame == UNCHANGED <<net, wire, held, lastDel, cnt>>
 \* when nothing is in flight (a packet taken aside by Hold is delayed beyond the timer)
 TimersMayFire == wire["A"] = <<>> /\ wire["B"] = <<>>
 NoFault == UNCHANGED <<faults, budget>>
+PrSame == UNCHANGED <<ackPt, advPt, fwd>>
 
 ---------------------------------------------------------------------------
 Init ==
@@ -121,10 +130,13 @@ Init ==
   /\ ssnOut = [s \in Side |-> [c \in ChanIds |-> 0]]
   /\ deliv = [s \in Side |-> [c \in ChanIds |-> <<>>]]
   /\ opens = [s \in Side |-> 0]
+  /\ ackPt = [s \in Side |-> 0]
+  /\ advPt = [s \in Side |-> 0]
+  /\ fwd = [s \in Side |-> [on |-> FALSE, fr |-> NoFrag, n |-> 0]]
   /\ net = {}
   /\ wire = [s \in Side |-> <<>>]
   /\ held = [s \in Side |-> {}]
-  /\ lastDel = [s \in Side |-> [k |-> "NONE", o |-> 0]]
+  /\ lastDel = [s \in Side |-> [k |-> "NONE", o |-> 0, t |-> 0]]
   /\ cnt = [s \in Side |-> [k \in Kinds |-> 0]]
   /\ faults = <<>>
   /\ budget = Budget
@@ -147,7 +159,9 @@ SendInit ==
        /\ NetSend("A", Pkt("INIT", "A", t, NoFrag, {}))
   /\ st' = [st EXCEPT !["A"] = "Connecting"]
   /\ t1' = [t1 EXCEPT !["A"] = "Init"]
-  /\ UNCHANGED <<t1cnt, answered, rx, sentQ, outQ, sub, ssnOut, deliv, opens>> /\ NoFault
+  /\ ackPt' = [ackPt EXCEPT !["A"] = Dec(next'["A"], M)]
+  /\ advPt' = [advPt EXCEPT !["A"] = Dec(next'["A"], M)]
+  /\ UNCHANGED <<t1cnt, answered, rx, sentQ, outQ, sub, ssnOut, deliv, opens, fwd>> /\ NoFault
 
 T1Expire ==
   /\ NetMode = "fifo"            \* in "set" mode the packet is still deliverable: nothing new
@@ -157,21 +171,23 @@ T1Expire ==
   /\ (IF t1["A"] = "Init"
       THEN NetSend("A", Pkt("INIT", "A", itsn["A"], NoFrag, {}))
       ELSE NetSend("A", Pkt("CECHO", "A", 0, NoFrag, {})))
-  /\ UNCHANGED <<st, t1, itsn, answered, next, rx, sentQ, outQ, sub, ssnOut, deliv, opens>> /\ NoFault
+  /\ UNCHANGED <<st, t1, itsn, answered, next, rx, sentQ, outQ, sub, ssnOut, deliv, opens>> /\ PrSame /\ NoFault
 
 RecvInit(p) ==
   /\ p \in Avail("B") /\ p.k = "INIT"
   /\ (IF answered /\ "SetupOverwrite" \notin Deviations
       THEN \* RFC 4960 5.2.2: answer again, leave the TCB alone
            /\ NetRecv("B", p, <<Pkt("IACK", "B", itsn["B"], NoFrag, {})>>)
-           /\ UNCHANGED <<itsn, next, rx, answered>>
+           /\ UNCHANGED <<itsn, next, rx, answered, ackPt, advPt>>
       ELSE \E t \in InitTsnB :
+           /\ ackPt' = [ackPt EXCEPT !["B"] = Dec(t, M)]
+           /\ advPt' = [advPt EXCEPT !["B"] = Dec(t, M)]
            /\ itsn' = [itsn EXCEPT !["B"] = t]
            /\ next' = [next EXCEPT !["B"] = t]
            /\ rx' = [rx EXCEPT !["B"].cum = Dec(p.tsn, M), !["B"].has = TRUE]
            /\ answered' = TRUE
            /\ NetRecv("B", p, <<Pkt("IACK", "B", t, NoFrag, {})>>))
-  /\ UNCHANGED <<st, t1, t1cnt, sentQ, outQ, sub, ssnOut, deliv, opens>> /\ NoFault
+  /\ UNCHANGED <<st, t1, t1cnt, sentQ, outQ, sub, ssnOut, deliv, opens, fwd>> /\ NoFault
 
 RecvInitAck(p) ==
   /\ p \in Avail("A") /\ p.k = "IACK"
@@ -183,7 +199,7 @@ RecvInitAck(p) ==
       ELSE \* RFC 4960 5.2.3: not in COOKIE-WAIT, discard
            /\ NetRecv("A", p, <<>>)
            /\ UNCHANGED <<rx, t1, t1cnt>>)
-  /\ UNCHANGED <<st, itsn, answered, next, sentQ, outQ, sub, ssnOut, deliv, opens>> /\ NoFault
+  /\ UNCHANGED <<st, itsn, answered, next, sentQ, outQ, sub, ssnOut, deliv, opens>> /\ PrSame /\ NoFault
 
 RecvCookieEcho(p) ==
   /\ p \in Avail("B") /\ p.k = "CECHO"
@@ -193,7 +209,7 @@ RecvCookieEcho(p) ==
       ELSE /\ st' = [st EXCEPT !["B"] = "Connected"]
            /\ opens' = [opens EXCEPT !["B"] = @ + 1])
   /\ NetRecv("B", p, <<Pkt("CACK", "B", 0, NoFrag, {})>>)
-  /\ UNCHANGED <<t1, t1cnt, itsn, answered, next, rx, sentQ, outQ, sub, ssnOut, deliv>> /\ NoFault
+  /\ UNCHANGED <<t1, t1cnt, itsn, answered, next, rx, sentQ, outQ, sub, ssnOut, deliv>> /\ PrSame /\ NoFault
 
 RecvCookieAck(p) ==
   /\ p \in Avail("A") /\ p.k = "CACK"
@@ -203,7 +219,7 @@ RecvCookieAck(p) ==
            /\ t1' = [t1 EXCEPT !["A"] = "None"]
       ELSE UNCHANGED <<st, opens, t1>>)        \* RFC 4960 5.2.5: discard
   /\ NetRecv("A", p, <<>>)
-  /\ UNCHANGED <<t1cnt, itsn, answered, next, rx, sentQ, outQ, sub, ssnOut, deliv>> /\ NoFault
+  /\ UNCHANGED <<t1cnt, itsn, answered, next, rx, sentQ, outQ, sub, ssnOut, deliv>> /\ PrSame /\ NoFault
 
 ---------------------------------------------------------------------------
 (* Data transfer                                                           *)
@@ -222,7 +238,7 @@ AppSend(s) ==
      IN /\ outQ' = [outQ EXCEPT ![s] = @ \o FragsOf(s, i)]
         /\ ssnOut' = [ssnOut EXCEPT ![s][c] = IF Chans[c].ord THEN Inc(@, S) ELSE @]
         /\ sub' = [sub EXCEPT ![s] = i]
-  /\ UNCHANGED <<st, t1, t1cnt, itsn, answered, next, rx, sentQ, deliv, opens>> /\ NetSame /\ NoFault
+  /\ UNCHANGED <<st, t1, t1cnt, itsn, answered, next, rx, sentQ, deliv, opens>> /\ PrSame /\ NetSame /\ NoFault
 
 TransmitNew(s) ==
   /\ st[s] = "Connected"
@@ -232,9 +248,9 @@ TransmitNew(s) ==
          t == next[s]
      IN /\ sentQ' = [sentQ EXCEPT ![s] = @ \cup {[tsn |-> t, fr |-> f, n |-> 1, acked |-> FALSE, ab |-> FALSE]}]
         /\ next' = [next EXCEPT ![s] = Inc(t, M)]
-        /\ NetSend(s, Pkt("DATA", s, t, f, {}))
+        /\ NetSend(s, DataPkt(s, t, f, 1))
   /\ outQ' = [outQ EXCEPT ![s] = Tail(@)]
-  /\ UNCHANGED <<st, t1, t1cnt, itsn, answered, rx, sub, ssnOut, deliv, opens>> /\ NoFault
+  /\ UNCHANGED <<st, t1, t1cnt, itsn, answered, rx, sub, ssnOut, deliv, opens>> /\ PrSame /\ NoFault
 
 Rtx(s) ==
   /\ NetMode = "fifo"            \* in "set" mode the first copy is still deliverable
@@ -242,22 +258,53 @@ Rtx(s) ==
   /\ \E x \in Outstanding(sentQ[s]) :
        /\ x.n < MaxRtx
        /\ sentQ' = [sentQ EXCEPT ![s] = (@ \ {x}) \cup {[x EXCEPT !.n = @ + 1]}]
-       /\ NetSend(s, Pkt("DATA", s, x.tsn, x.fr, {}))
-  /\ UNCHANGED <<st, t1, t1cnt, itsn, answered, next, rx, outQ, sub, ssnOut, deliv, opens>> /\ NoFault
+       /\ NetSend(s, DataPkt(s, x.tsn, x.fr, x.n + 1))
+  /\ UNCHANGED <<st, t1, t1cnt, itsn, answered, next, rx, outQ, sub, ssnOut, deliv, opens>> /\ PrSame /\ NoFault
 
-\* PR-SCTP: abandon every fragment of the oldest outstanding message of a partially reliable
-\* channel (sent or still queued) and announce the new cumulative point.
+\* PR-SCTP (RFC 3758), update_advanced_peer_ack_point + create_forward_tsn_chunk: the message at
+\* the head of the retransmission queue belongs to a partially reliable channel and is given up:
+\* all its fragments are abandoned, the Advanced.Peer.Ack.Point moves over them and a FORWARD-TSN
+\* announces the new cumulative point.  The point starts from the highest cumulative TSN the peer
+\* has acknowledged.  The pinned code reads its own receive-side cumulative TSN there (the peer's
+\* TSN space): deviation "AdvPointWrongSpace".
+SerMax(a, b) == IF TsnGT(a, b) THEN a ELSE b
+\* should_abandon: every fragment of a message of a partially reliable channel is given up together
+\* (no further retransmission)
 Abandon(s) ==
+  /\ st[s] = "Connected"
   /\ \E x \in Outstanding(sentQ[s]) :
        /\ Chans[x.fr.ch].pr
-       /\ \A y \in sentQ[s] : ~TsnGT(x.tsn, y.tsn)            \* x is the head of the queue
+       /\ LET same(f) == f.ch = x.fr.ch /\ f.m = x.fr.m
+          IN /\ \A k \in 1..Len(outQ[s]) : ~same(outQ[s][k])  \* the whole message has been given TSNs
+             /\ sentQ' = [sentQ EXCEPT ![s] = {IF same(y.fr) THEN [y EXCEPT !.ab = TRUE] ELSE y : y \in @}]
+  /\ UNCHANGED <<st, t1, t1cnt, itsn, answered, next, rx, outQ, sub, ssnOut, deliv, opens>> /\ PrSame /\ NetSame /\ NoFault
+
+\* the Advanced.Peer.Ack.Point moves over the abandoned message that follows it
+Advance(s) ==
+  /\ st[s] = "Connected"
+  /\ LET last == IF "AdvPointWrongSpace" \in Deviations THEN rx[s].cum ELSE ackPt[s]
+         adv0 == SerMax(last, advPt[s])
+     IN \E x \in sentQ[s] :
+       /\ x.tsn = Inc(adv0, M) /\ x.ab
        /\ LET same(f) == f.ch = x.fr.ch /\ f.m = x.fr.m
               run == {y \in sentQ[s] : same(y.fr)}
               top == CHOOSE y \in run : \A z \in run : ~TsnGT(z.tsn, y.tsn)
-          IN /\ \A k \in 1..Len(outQ[s]) : ~same(outQ[s][k])  \* the whole message has been given TSNs
-             /\ sentQ' = [sentQ EXCEPT ![s] = @ \ run]
+          IN /\ sentQ' = [sentQ EXCEPT ![s] = {y \in @ : TsnGT(y.tsn, top.tsn)}]
+             /\ advPt' = [advPt EXCEPT ![s] = top.tsn]
+             /\ fwd' = [fwd EXCEPT ![s] = [on |-> TRUE, fr |-> x.fr, n |-> 1]]
              /\ NetSend(s, Pkt("FWD", s, top.tsn, x.fr, {}))   \* fr carries (ch, ssn) of the skipped message
-  /\ UNCHANGED <<st, t1, t1cnt, itsn, answered, next, rx, outQ, sub, ssnOut, deliv, opens>> /\ NoFault
+  /\ UNCHANGED <<st, t1, t1cnt, itsn, answered, next, rx, outQ, sub, ssnOut, deliv, opens, ackPt>> /\ NoFault
+
+\* RFC 3758 3.5 (C2/C3): while the peer's cumulative ack is behind the Advanced.Peer.Ack.Point the
+\* FORWARD-TSN is sent again (a lost one would otherwise freeze the peer's cumulative point for
+\* good).  The pinned code sends it once: deviation "FwdNotRetransmitted".
+ResendFwd(s) ==
+  /\ NetMode = "fifo" /\ TimersMayFire
+  /\ "FwdNotRetransmitted" \notin Deviations
+  /\ fwd[s].on /\ TsnGT(advPt[s], ackPt[s]) /\ fwd[s].n < MaxRtx
+  /\ fwd' = [fwd EXCEPT ![s].n = @ + 1]
+  /\ NetSend(s, Pkt("FWD", s, advPt[s], fwd[s].fr, {}))
+  /\ UNCHANGED <<st, t1, t1cnt, itsn, answered, next, rx, sentQ, outQ, sub, ssnOut, deliv, opens, ackPt, advPt>> /\ NoFault
 
 \* handle_data.  DATA is only acted on once the association is established.  An endpoint that
 \* has a COOKIE-ECHO outstanding learns from DATA that the peer accepted it (the COOKIE-ACK was
@@ -281,7 +328,7 @@ RecvData(s, p) ==
                     ELSE UNCHANGED <<st, opens, t1>>)
         ELSE /\ NetRecv(s, p, <<>>)
              /\ UNCHANGED <<rx, deliv, st, opens, t1>>
-  /\ UNCHANGED <<t1cnt, itsn, answered, next, sentQ, outQ, sub, ssnOut>> /\ NoFault
+  /\ UNCHANGED <<t1cnt, itsn, answered, next, sentQ, outQ, sub, ssnOut>> /\ PrSame /\ NoFault
 
 RecvFwd(s, p) ==
   /\ p \in Avail(s) /\ p.k = "FWD"
@@ -292,13 +339,14 @@ RecvFwd(s, p) ==
      IN /\ rx' = [rx EXCEPT ![s] = Clr([r EXCEPT !.reasm[p.fr.ch] = <<>>])]
         /\ Deliver(s, r)
         /\ NetRecv(s, p, <<Pkt("SACK", s, r.cum, NoFrag, GapSet(r))>>)
-  /\ UNCHANGED <<st, t1, t1cnt, itsn, answered, next, sentQ, outQ, sub, ssnOut, opens>> /\ NoFault
+  /\ UNCHANGED <<st, t1, t1cnt, itsn, answered, next, sentQ, outQ, sub, ssnOut, opens>> /\ PrSame /\ NoFault
 
 RecvSack(s, p) ==
   /\ p \in Avail(s) /\ p.k = "SACK"
   /\ sentQ' = [sentQ EXCEPT ![s] = ApplySack(@, p.tsn, p.gaps)]
+  /\ ackPt' = [ackPt EXCEPT ![s] = SerMax(p.tsn, @)]
   /\ NetRecv(s, p, <<>>)
-  /\ UNCHANGED <<st, t1, t1cnt, itsn, answered, next, rx, outQ, sub, ssnOut, deliv, opens>> /\ NoFault
+  /\ UNCHANGED <<st, t1, t1cnt, itsn, answered, next, rx, outQ, sub, ssnOut, deliv, opens, advPt, fwd>> /\ NoFault
 
 ---------------------------------------------------------------------------
 (* Explicit faults (fifo mode): each costs one unit of budget and is       *)
@@ -306,9 +354,9 @@ RecvSack(s, p) ==
 (* of that kind in that direction, fault kind, and for delayed copies the  *)
 (* packet after which the copy is released.                                *)
 FaultRec(d, p, kind, after) ==
-  [dir |-> d, k |-> p.k, o |-> p.o, kind |-> kind, ak |-> after.k, ao |-> after.o]
-NoAfter == [k |-> "NONE", o |-> 0]
-ProtoSame == UNCHANGED <<st, t1, t1cnt, itsn, answered, next, rx, sentQ, outQ, sub, ssnOut, deliv, opens>>
+  [dir |-> d, k |-> p.k, o |-> p.o, t |-> RelTsn(p), kind |-> kind, ak |-> after.k, ao |-> after.o, at |-> after.t]
+NoAfter == [k |-> "NONE", o |-> 0, t |-> 0]
+ProtoSame == UNCHANGED <<st, t1, t1cnt, itsn, answered, next, rx, sentQ, outQ, sub, ssnOut, deliv, opens, ackPt, advPt, fwd>>
 
 Drop(d) ==
   /\ NetMode = "fifo" /\ budget > 0 /\ wire[d] # <<>>
@@ -333,7 +381,7 @@ Release(d) ==
   /\ NetMode = "fifo" /\ held[d] # {}
   /\ lastDel[d].k # "NONE"                       \* something overtook it, otherwise nothing happened
   /\ LET h == CHOOSE h \in held[d] : TRUE
-     IN /\ (h.kind = "hold" => (lastDel[d].k # h.p.k \/ lastDel[d].o # h.p.o))
+     IN /\ (h.kind = "hold" => (lastDel[d].k # h.p.k \/ lastDel[d].o # h.p.o \/ lastDel[d].t # RelTsn(h.p)))
         /\ wire' = [wire EXCEPT ![d] = <<h.p>> \o @]
         /\ faults' = Append(faults, FaultRec(d, h.p, h.kind, lastDel[d]))
   /\ held' = [held EXCEPT ![d] = {}]
@@ -343,7 +391,7 @@ Fault == \E d \in Side : Drop(d) \/ Dup(d) \/ Hold(d, TRUE) \/ Hold(d, FALSE) \/
 
 Proto ==
   \/ SendInit \/ T1Expire
-  \/ \E s \in Side : AppSend(s) \/ TransmitNew(s) \/ Rtx(s) \/ Abandon(s)
+  \/ \E s \in Side : AppSend(s) \/ TransmitNew(s) \/ Rtx(s) \/ Abandon(s) \/ Advance(s) \/ ResendFwd(s)
   \/ \E s \in Side : \E p \in Avail(s) :
         \/ RecvData(s, p) \/ RecvSack(s, p) \/ RecvFwd(s, p)
         \/ (s = "B" /\ (RecvInit(p) \/ RecvCookieEcho(p)))
